@@ -20,7 +20,8 @@ def K(b, a, o=0):
 
 def big_program(pid, kind, nb, na, nsteps, rng):
     """nb branches x (nsteps steps of na actions); every action has a block capture with a distinct constant.
-    Odd branches are iterator branches whose steps end in a fold with two block operands."""
+    Sync / thread kinds mix map, and_then, or_else, map_err and or on Result values (some branches start as
+    Err so that the error-side closures really run); async kinds use map on futures."""
     asy = kind in ASYNC
     is_try = kind.startswith("try_")
     ids = [1]
@@ -29,19 +30,25 @@ def big_program(pid, kind, nb, na, nsteps, rng):
         ids[0] += 1
         return ids[0]
 
-    branches, refs, ranges = [], [], []
+    M = (1 << 64) - 1
+    branches, finals, ranges = [], [], []
     for b in range(nb):
         lo = ids[0] + 1
         parts = []
+        # try macros abort at the first step that ends with an Err: keep their branches Ok throughout
+        start_err = (not asy) and (not is_try) and b % 5 == 3
         if asy:
             init = "futures::future::ready(Ok::<u64, u8>(%d))" % (b + 1) if is_try else "futures::future::ready(%du64)" % (b + 1)
+            state = (True, b + 1)
+        elif start_err:
+            init = "Err::<u64, u8>(%d)" % (b % 200)
+            state = (False, b % 200)
         else:
-            init = "Ok::<u64, u8>(%d)" % (b + 1) if is_try else "Some(%du64)" % (b + 1)
+            init = "Ok::<u64, u8>(%d)" % (b + 1)
+            state = (True, b + 1)
         parts.append(init)
-        ref = "%du64" % (b + 1)
         for s in range(nsteps):
             for a in range(na):
-                pos = a if s == 0 else a  # in-step action index: initial value is index 0 of step 0
                 idx_in_step = (a + 1) if s == 0 else a
                 k = K(b, idx_in_step + 100 * s)
                 c = nid()
@@ -51,28 +58,57 @@ def big_program(pid, kind, nb, na, nsteps, rng):
                         op = "%s|> { zc(%d); let k = %du64; move |r: Result<u64, u8>| r.map(|v| v.wrapping_mul(31).wrapping_add(k)) }" % (tilde, c, k)
                     else:
                         op = "%s|> { zc(%d); let k = %du64; move |v: u64| v.wrapping_mul(31).wrapping_add(k) }" % (tilde, c, k)
+                    state = (True, (state[1] * 31 + k) & M)
                 else:
-                    op = "%s|> { zc(%d); let k = %du64; move |v: u64| v.wrapping_mul(31).wrapping_add(k) }" % (tilde, c, k)
+                    which = (b + a + s) % 5
+                    if which == 0:
+                        op = "%s|> { zc(%d); let k = %du64; move |v: u64| v.wrapping_mul(31).wrapping_add(k) }" % (tilde, c, k)
+                        if state[0]:
+                            state = (True, (state[1] * 31 + k) & M)
+                    elif which == 1:
+                        op = "%s=> { zc(%d); let k = %du64; move |v: u64| Ok::<u64, u8>(v.wrapping_mul(29).wrapping_add(k)) }" % (tilde, c, k)
+                        if state[0]:
+                            state = (True, (state[1] * 29 + k) & M)
+                    elif which == 2:
+                        op = "%s<= { zc(%d); let k = %du64; move |e: u8| Ok::<u64, u8>((e as u64).wrapping_add(k)) }" % (tilde, c, k)
+                        if not state[0]:
+                            state = (True, (state[1] + k) & M)
+                    elif which == 3:
+                        op = "%s!> { zc(%d); let k = %du8; move |e: u8| e.wrapping_add(k) }" % (tilde, c, k % 7)
+                        if not state[0]:
+                            state = (False, (state[1] + k % 7) & 255)
+                    else:
+                        op = "%s<| { zc(%d); Ok::<u64, u8>(%du64) }" % (tilde, c, k)
+                        if not state[0]:
+                            state = (True, k)
                 parts.append(op)
-                ref = "(%s).wrapping_mul(31).wrapping_add(%du64)" % (ref, k)
         branches.append(" ".join(parts))
-        refs.append(ref)
+        finals.append(state)
         ranges.append((lo, ids[0] + 1))
     params = ", ".join("r%d" % i for i in range(nb))
     arr = "[%s]" % ", ".join("r%d" % i for i in range(nb))
+
+    def show(st):
+        return "Ok(%d)" % st[1] if st[0] else "Err(%d)" % st[1]
     if is_try:
         h = "map => |%s| %s" % (params, arr)
         rty = "Result<[u64; %d], u8>" % nb
-        ref_final = "Ok::<[u64; %d], u8>([%s])" % (nb, ", ".join(refs))
+        # multi-step try: the first step that ends with a failing branch aborts; keep it simple and exact by
+        # requiring every branch to end every step Ok in try programs (start_err branches recover in step 0
+        # only if an or_else / or comes first) — otherwise fall back to the final states
+        bad = [st for st in finals if not st[0]]
+        if bad and nsteps > 1:
+            return None
+        ref_final = "Err::<[u64; %d], u8>(%d)" % (nb, bad[0][1]) if bad else "Ok::<[u64; %d], u8>([%s])" % (nb, ", ".join("%du64" % st[1] for st in finals))
     else:
         if asy:
             h = "then => |%s| futures::future::ready(%s)" % (params, arr)
             rty = "[u64; %d]" % nb
-            ref_final = "[%s]" % ", ".join(refs)
+            ref_final = "[%s]" % ", ".join("%du64" % st[1] for st in finals)
         else:
             h = "then => |%s| %s" % (params, arr)
-            rty = "[Option<u64>; %d]" % nb
-            ref_final = "[%s]" % ", ".join("Some(%s)" % r for r in refs)
+            rty = "[Result<u64, u8>; %d]" % nb
+            ref_final = "[%s]" % ", ".join(show(st) for st in finals)
     dsl = ", ".join(branches) + ", " + h
     return pid, kind, dsl, rty, ref_final, ranges, ids[0] + 2, "big,big:%dx%dx%d" % (nb, na, nsteps)
 
@@ -280,7 +316,10 @@ def build_corpus(tier, seed):
     for kind in ALL:
         shapes = shapes_seq if kind in ("join", "try_join") else shapes_conc
         for (nb, na, ns) in shapes:
-            entries.append(big_program(pid, kind, nb, na, ns, rng))
+            e = big_program(pid, kind, nb, na, ns, rng)
+            if e is None:
+                continue
+            entries.append(e)
             pid += 1
     for kind in ("join", "join_spawn"):
         entries.append(fold_program(pid, kind, 12 if kind == "join_spawn" else 24, rng))
